@@ -158,6 +158,19 @@ pub struct Outcome {
     pub direct_distinct: u64,
     /// enumerated probes of known-dirty inputs: {id, fails, what, detail}
     pub probes: Vec<Value>,
+    /// cases already evaluated by `flush` (large runs hand their cases over in batches)
+    pub flushed: Flushed,
+}
+
+#[derive(Default)]
+pub struct Flushed {
+    pub cases: u64,
+    pub per_op: BTreeMap<String, (u64, u64)>,
+    pub seen: std::collections::HashSet<u64>,
+    pub disagreements: Vec<Value>,
+    pub oracle_failures: Vec<Value>,
+    pub assumption_failures: Vec<Value>,
+    pub samples: Vec<Value>,
 }
 
 impl Outcome {
@@ -179,37 +192,49 @@ impl Outcome {
         }
     }
 
-    /// Sends every case to the model, compares, and writes `<out>/result.json`.
-    pub fn finish(mut self, out: &Path, jobs: usize) -> i32 {
-        std::fs::create_dir_all(out).ok();
-        let requests: Vec<String> = self.cases.iter().map(|c| c.request.clone()).collect();
+    /// Evaluates the cases pushed so far against the model and forgets them (keeps the counts,
+    /// the failures and a few samples): bounds the memory of runs with millions of cases.
+    pub fn flush(&mut self, jobs: usize) {
+        let cases = std::mem::take(&mut self.cases);
+        let requests: Vec<String> = cases.iter().map(|c| c.request.clone()).collect();
         let answers = run_model(&requests, jobs);
-        let mut disagreements = vec![];
-        let mut oracle_failures = vec![];
-        let mut assumption_failures = vec![];
-        let mut per_op: BTreeMap<String, (u64, u64)> = BTreeMap::new();
-        let mut distinct = std::collections::HashSet::new();
-        for (c, a) in self.cases.iter().zip(answers.iter()) {
-            let e = per_op.entry(format!("{}:{}", c.kind, c.op)).or_insert((0, 0));
+        drop(requests);
+        let f = &mut self.flushed;
+        for (i, (c, a)) in cases.iter().zip(answers.iter()).enumerate() {
+            let e = f.per_op.entry(format!("{}:{}", c.kind, c.op)).or_insert((0, 0));
             e.0 += 1;
-            if c.nontrivial && distinct.insert(c.request.clone()) {
-                e.1 += 1;
+            if c.nontrivial {
+                use std::hash::{Hash, Hasher};
+                let mut h = std::collections::hash_map::DefaultHasher::new();
+                c.request.hash(&mut h);
+                if f.seen.insert(h.finish()) {
+                    e.1 += 1;
+                }
             }
             if a != &c.expect {
                 let v = json!({"kind": c.kind, "op": c.op, "request": c.request, "impl": c.expect, "model": a, "desc": c.desc});
                 match c.kind {
-                    "corr" => disagreements.push(v),
-                    "oracle" => oracle_failures.push(v),
-                    _ => assumption_failures.push(v),
+                    "corr" => f.disagreements.push(v),
+                    "oracle" => f.oracle_failures.push(v),
+                    _ => f.assumption_failures.push(v),
                 }
             }
-        }
-        for (i, c) in self.cases.iter().enumerate() {
-            if self.samples.len() >= 6 {
-                break;
+            if f.samples.len() < 6 && c.nontrivial && i % (cases.len() / 5 + 1) == 0 {
+                f.samples.push(json!({"kind": c.kind, "op": c.op, "desc": c.desc, "request": c.request, "answer": a}));
             }
-            if c.nontrivial && i % (self.cases.len() / 5 + 1) == 0 {
-                self.samples.push(json!({"kind": c.kind, "op": c.op, "desc": c.desc, "request": c.request, "answer": answers[i]}));
+        }
+        f.cases += cases.len() as u64;
+    }
+
+    /// Sends every case to the model, compares, and writes `<out>/result.json`.
+    pub fn finish(mut self, out: &Path, jobs: usize) -> i32 {
+        std::fs::create_dir_all(out).ok();
+        self.flush(jobs);
+        let Flushed { cases: ncases, per_op, seen, disagreements, oracle_failures, assumption_failures, samples } = std::mem::take(&mut self.flushed);
+        let distinct = seen;
+        for s in samples {
+            if self.samples.len() < 6 {
+                self.samples.push(s);
             }
         }
         // keep at most 3 examples per signature so that one noisy defect cannot hide another
@@ -220,7 +245,7 @@ impl Outcome {
                 let sig = x.get("sig").and_then(|s| s.as_str()).or_else(|| x.get("op").and_then(|s| s.as_str())).unwrap_or("?").to_string();
                 let c = per.entry(sig).or_insert(0);
                 *c += 1;
-                if *c <= 3 && res.len() < 60 {
+                if (*c <= 3 && res.len() < 60) || std::env::var("VERIF_KEEP_ALL").is_ok() {
                     res.push(x.clone());
                 }
             }
@@ -230,7 +255,7 @@ impl Outcome {
             "property": self.property,
             "tier": self.tier,
             "seed": self.seed,
-            "evaluations": self.cases.len() as u64 + self.direct_evals,
+            "evaluations": ncases + self.direct_evals,
             "distinct_nontrivial": distinct.len() as u64 + self.direct_distinct,
             "probes": self.probes,
             "per_op": per_op.iter().map(|(k, v)| (k.clone(), json!({"cases": v.0, "distinct_nontrivial": v.1}))).collect::<serde_json::Map<_, _>>(),
